@@ -167,7 +167,7 @@ class BayesianNetwork(DAG):
 
         for affected_node in affected_nodes:
             node_cpd = self.get_cpds(node=affected_node)
-            if node_cpd:
+            if node_cpd and node in node_cpd.scope():
                 node_cpd.marginalize([node], inplace=True)
 
         if self.get_cpds(node=node):
